@@ -701,6 +701,9 @@ def convert(m, v, src, dst, ci):
         return Seq(v.elems(), 'vec')
     if dst_l == 'Vec' and isinstance(v, Seq):
         return Seq(v.items, 'vec', v.tag)
+    if dst_l == 'Vec' and hasattr(v, 'as_seq'):          # bytes::Bytes / BytesMut -> Vec<u8>
+        sq, a, b = v.as_seq()
+        return Seq(list(sq.items[a:b]), 'vec')
     if dst_l == 'Bytes' and isinstance(v, Seq):
         from .lib_bytes import BytesBuf
         return BytesBuf(list(v.items))
